@@ -210,7 +210,7 @@ func ruleTagPreserve(c *Ctx) {
 	for _, b := range rf.Blocks {
 		for _, in := range b.Instrs {
 			if call, ok := in.(*ssa.Call); ok {
-				if cal := call.Common().StaticCallee(); cal != nil && cal.String() == "strconv.Itoa" {
+				if cal := call.Common().StaticCallee(); cal != nil && (cal.String() == "strconv.Itoa" || cal.String() == "strconv.FormatInt") {
 					itoa = call
 				}
 			}
@@ -219,7 +219,7 @@ func ruleTagPreserve(c *Ctx) {
 	ok := false
 	why := "cannot find strconv.Itoa(maxPlenc)"
 	if itoa != nil {
-		arg := itoa.Common().Args[0]
+		arg := stripConv(itoa.Common().Args[0])
 		if bo, isBin := arg.(*ssa.BinOp); isBin && bo.Op == token.ADD {
 			if cst, isC := bo.Y.(*ssa.Const); isC {
 				if k, okk := constBig(cst); okk && k.Int64() == 1 {
